@@ -307,6 +307,22 @@ func genC03(r *rand.Rand, tier string, env *Env) []Case {
 		cases = append(cases, Case{Kind: "computed-name", Ops: []Op{{"parse.run", args[6:]}, {"gen.run", args}},
 			Oracles: []Op{{"c03.repeat", append([][]byte{bytes.Repeat([]byte{'x'}, 3*reps)}, args...)}, {"c03.cli", append([][]byte{bytes.Repeat([]byte{'x'}, 12)}, args...)}}})
 	}
+	// exclusion files of one directive that interact through definitions (they share one table, the first definition of
+	// a name wins): the result depends on the order they are read in, which must be the written one
+	for k := 0; k < 6; k++ {
+		words := []string{"alpha", "beta", "gamma", "delta", "eps"}
+		r.Shuffle(len(words), func(i, j int) { words[i], words[j] = words[j], words[i] })
+		files := [][]byte{[]byte("i"), []byte("words.ra"), []byte(strings.Join(words, "\n") + "\n"),
+			[]byte("e"), []byte("skip-a.ra"), []byte("##!> define word " + words[0] + "\n{{word}}\n"),
+			[]byte("e"), []byte("skip-b.ra"), []byte(pick(r, []string{"##!> define word " + words[1] + "\n{{word}}\n", "{{word}}\n" + words[2] + "\n"})),
+			[]byte("e"), []byte("skip-c.ra"), []byte("##!> define word " + words[3] + "\n##!> define other " + words[4] + "\n{{word}}\n{{other}}\n")}
+		names := []string{"skip-a", "skip-b", "skip-c"}
+		r.Shuffle(len(names), func(i, j int) { names[i], names[j] = names[j], names[i] })
+		prog := "##!> include-except words " + strings.Join(names[:2+r.Intn(2)], " ") + "\nzz\n"
+		args := append(append(append([][]byte{}, emptyCfg...), []byte(prog)), files...)
+		cases = append(cases, Case{Kind: "exclusion-files-share-definitions", Ops: []Op{{"parse.run", args[6:]}, {"gen.run", args}},
+			Oracles: []Op{{"c03.repeat", append([][]byte{bytes.Repeat([]byte{'x'}, 3*reps)}, args...)}}})
+	}
 	// the configuration file in spellings whose loading could depend on an order (keys differing only in case, unknown keys)
 	nY := 12
 	if tier == "thorough" {
